@@ -413,6 +413,12 @@ func genHTTPBody(r *rand.Rand) []byte {
 	if r.Intn(10) == 0 {
 		add("peers6", []byte("i7e"))
 	}
+	if r.Intn(8) == 0 {
+		// a key nobody knows, nesting deeply: the reply decoder is recursive (a few megabytes of
+		// this overflowed its stack before the depth limit)
+		d := []int{5, 62, 63, 64, 65, 100, 3000}[r.Intn(7)]
+		add("zdeep", []byte(strings.Repeat("l", d)+strings.Repeat("e", d)))
+	}
 	out := []byte("d")
 	for _, kv := range kvs {
 		out = append(out, bstr(kv[0])...)
